@@ -86,6 +86,7 @@ def py_load(blob):
 # generators
 # ---------------------------------------------------------------------------------------------------
 KEYS = [b'a', b'b', b'ab', b'k1', b'zz', b'A', b'\xff\x01', b'a=b;c']
+SAFE_KEYS = [b'a', b'b', b'ab', b'k1', b'zz', b'A']
 HEXD = '0123456789abcdef'
 
 
@@ -104,13 +105,13 @@ def gen_value(rng):
     return rbytes(rng, rng.choice([8, 15, 16, 17, 30, 60]))
 
 
-def gen_script(rng, cfg, est):
+def gen_script(rng, cfg, est, safe=False):
     """est: generator's estimate of the data currently in the session of that browser (dict k -> len v), used to aim the payload at limit+-1"""
     ops = []
     n = rng.choice([0, 0, 1, 1, 1, 2, 2, 3, 4])
     for _ in range(n):
         r = rng.random()
-        k = rng.choice(KEYS)
+        k = rng.choice(SAFE_KEYS if safe else KEYS)
         if r < 0.30:
             v = gen_value(rng)
             ops.append('s:%s:%s' % (hexs(k), hexs(v)))
@@ -138,16 +139,17 @@ def gen_script(rng, cfg, est):
         elif r < 0.87:
             ops.append('dp')
         elif r < 0.93:
-            ops.append('o:%d' % rng.choice([0, 1]))
+            if not (safe and cfg['loc'] == 'C'):
+                ops.append('o:%d' % rng.choice([0, 1]))
         else:
             ops.append('r')
     return ops
 
 
-def gen_attack(rng, b):
+def gen_attack(rng, b, safe=False):
     r = rng.random()
     if r < 0.45:
-        return 'A %d hist %d %s' % (b, rng.randrange(0, 6), rng.choice(['id', 'id', 'id', 'flip', 'trunc', 'ext', 'upper', 'path']))
+        return 'A %d hist %d %s' % (b, rng.randrange(0, 6), rng.choice(['id', 'id', 'id', 'flip', 'trunc', 'ext', 'upper'] + ([] if safe else ['path'])))
     good = ''.join(rng.choice(HEXD) for _ in range(32))
     if good.startswith('ffffffff'):
         good = '0' + good[1:]
@@ -170,6 +172,8 @@ def gen_attack(rng, b):
         '',
         ''.join(chr(rng.randrange(1, 256)) for _ in range(rng.randrange(1, 40))),
     ]
+    if safe:
+        choices = [c for c in choices if c and re.fullmatch(r'[A-Za-z0-9]+', c)]
     s = rng.choice(choices).encode('latin-1')
     return 'A %d raw %s' % (b, hexs(s))
 
@@ -200,7 +204,7 @@ def gen_plant(rng, b, now):
     return 'P %d %s %d %s' % (b, idc, dl, hexs(blob))
 
 
-def gen_history(rng, cfg, nsteps, nb):
+def gen_history(rng, cfg, nsteps, nb, safe=False):
     steps = []
     now = NOW0
     to = cfg['to']
@@ -216,13 +220,16 @@ def gen_history(rng, cfg, nsteps, nb):
             now += dt
             steps.append('T %d' % dt)
         elif r < 0.30:
-            steps.append(gen_attack(rng, b))
+            steps.append(gen_attack(rng, b, safe))
         elif r < 0.33:
-            steps.append('X %d %s %s' % (b, hexs(rng.choice(KEYS)), hexs(gen_value(rng) or b'v')))
-        elif r < 0.36:
+            if safe:
+                steps.append('X %d %s %s' % (b, hexs(rng.choice(SAFE_KEYS)), hexs(bytes(rng.choice(b'abc019') for _ in range(rng.randrange(1, 5))))))
+            else:
+                steps.append('X %d %s %s' % (b, hexs(rng.choice(KEYS)), hexs(gen_value(rng) or b'v')))
+        elif r < 0.36 and not safe:
             steps.append(gen_plant(rng, b, now))
         else:
-            ops = gen_script(rng, cfg, est[b])
+            ops = gen_script(rng, cfg, est[b], safe)
             for o in ops:
                 a = o.split(':')
                 if a[0] == 's':
@@ -280,6 +287,22 @@ def gen_cases(ctx):
     # long keys / values at the codec limits (1023 / 1024 byte key)
     for kl in (1022, 1023, 1024):
         cases.append('hist loc=S stor=M exp=R to=100 lim=64 | R 0 s:%s:31 | R 0 | R 0 s:61:32 | R 0' % ('6b' * kl))
+    return cases
+
+
+def gen_http_cases(ctx):
+    """histories for the production path (harness/C06_http.cpp): cookie-safe keys and attacker strings, nothing that raises"""
+    rng = ctx.rng
+    cases = [c for c in directed_cases() if ' P ' not in c and 'e:5f73' not in c and 'loc=C' not in c or (' o:1' not in c and ' P ' not in c)]
+    cases = [c for c in cases if 'stor=M' in c][:60] + [c for c in cases if 'stor=M' not in c]
+    for i in range(ctx.scale(400, 6000)):
+        r = rng.random()
+        stor = 'M' if r < 0.8 else ('F' if r < 0.9 else 'N')
+        cfg = dict(loc=rng.choice('SSCBB'), stor=stor, exp=rng.choice('FRB'),
+                   to=rng.choice([1, 2, 5, 7, 10, 20, 30, 100, 3600]), lim=rng.choice([0, 10, 20, 40, 64, 2048]))
+        if cfg['loc'] == 'C':
+            cfg['stor'] = 'M'
+        cases.append(case_line(cfg, gen_history(rng, cfg, rng.choice([3, 6, 10, 16]), rng.choice([1, 2, 2, 3]), safe=True)))
     return cases
 
 
@@ -521,18 +544,6 @@ def oracle_(case, out):
                 return ('exposed-cookie-outlives-session', 'session was emptied but exposed-value cookies remain: %r' % sorted(map(repr, new_xs)))
             jars[b] = (new_sess, new_xs)
             continue
-        if toolong:
-            if exc != 'cppcms':
-                return ('oversized-entry-accepted', 'a key >= 1024 bytes or value >= 2 MiB was not rejected')
-            jars[b] = (new_sess, new_xs)
-            continue
-        if loc == 'C' and stt['srv']:
-            if exc != 'cppcms':
-                return ('on-server-ignored-by-client-backend', 'on_server(true) with client-only storage must be refused')
-            jars[b] = (new_sess, new_xs)
-            continue
-        if exc:
-            return ('unexpected-exception', rs[:200])
         unchanged = (data == exp_data) and not newsess
         h, tval = stt['how'], stt['age']
         tin = tok['deadline'] if alive_tok else None
@@ -545,6 +556,8 @@ def oracle_(case, out):
         force = unchanged
         if skip:
             # nothing may change: same cookie, same deadline, same record
+            if exc:
+                return ('unexpected-exception', rs[:200])
             if new_sess != sess:
                 return ('unchanged-session-cookie-changed', 'fixed/unrenewed unchanged session: cookie went from %r to %r' % (sess, new_sess))
             if old_server_id is not None and not presented.startswith('C') and alive.get(old_server_id) != tin:
@@ -556,6 +569,18 @@ def oracle_(case, out):
                     soft.append(('exposed-cookie-expired-before-session', 'exposed key %r is in the live session but the browser already dropped its cookie' % k))
             jars[b] = (new_sess, new_xs)
             continue
+        if toolong:
+            if exc != 'cppcms':
+                return ('oversized-entry-accepted', 'a key >= 1024 bytes or value >= 2 MiB was not rejected')
+            jars[b] = (new_sess, new_xs)
+            continue
+        if loc == 'C' and stt['srv']:
+            if exc != 'cppcms':
+                return ('on-server-ignored-by-client-backend', 'on_server(true) with client-only storage must be refused')
+            jars[b] = (new_sess, new_xs)
+            continue
+        if exc:
+            return ('unexpected-exception', rs[:200])
         deadline = tval + now if (h in (1, 2) or (h == 0 and newsess)) else tin
         blob_len = len(py_save(data))
         on_server = loc == 'S' or (loc == 'B' and (stt['srv'] or blob_len > cfg['lim']))
@@ -686,6 +711,13 @@ def run(ctx):
     try:
         vlib.differential(ctx, cases, exe, mexe, oracle, nontrivial, classify, impl_env={'C06_TMP': tmp},
                           jobs=8)
+        # the production path: session_interface(http::context&) behind a real HTTP front end
+        hexe, err = vlib.build_harness('C06_http', ['C06_http.cpp'])
+        if not hexe:
+            ctx.broke('http harness build failed', err)
+        elif ctx.replay_cases is None:
+            vlib.differential(ctx, gen_http_cases(ctx), hexe, mexe, oracle, nontrivial, lambda c, o: 'http ' + classify(c, o),
+                              impl_env={'C06_TMP': tmp}, what='correspondence model vs implementation (http::context path)', jobs=6)
     finally:
         import shutil
         shutil.rmtree(tmp, ignore_errors=True)
